@@ -960,6 +960,10 @@ impl<'a> ExecutorBuilder<'a> {
             PhysicalOperator::SortExec(sort) => self.compute_input_column_map(sort.input),
             PhysicalOperator::LimitExec(limit) => self.compute_input_column_map(limit.input),
             PhysicalOperator::TopKExec(topk) => self.compute_input_column_map(topk.input),
+            // a projection without expressions stands for `*`: it exposes its input's columns
+            PhysicalOperator::ProjectExec(project) if project.expressions.is_empty() => {
+                self.compute_input_column_map(project.input)
+            }
             PhysicalOperator::ProjectExec(project) => project
                 .expressions
                 .iter()
